@@ -59,8 +59,19 @@ class Emitter:
         else:
             self.col += len(b)
 
+    def maybe_comment(self):
+        """a comment where white space may stand: tree-sitter attaches it as a named child of whatever
+        construct is being written, which shifts child positions"""
+        if self.style.get('comments') and self.rng.random() < 0.07:
+            self.w(self.rng.choice([' /* c */ ', ' /**/ ', ' /* x\n y */ ', ' // tail' + self.nl]))   # never glued to a `/` or `*` before it
+            return True
+        return False
+
     def sp(self):
         """mandatory white space between two word tokens"""
+        if self.maybe_comment():
+            self.w(' ')
+            return
         r = self.rng.random()
         if not self.style.get('wild') or r < 0.7:
             self.w(' ')
@@ -73,6 +84,8 @@ class Emitter:
 
     def osp(self):
         """optional white space around punctuation"""
+        if self.maybe_comment():
+            return
         if self.style.get('wild'):
             r = self.rng.random()
             if r < 0.5:
@@ -515,6 +528,11 @@ class Gen:
             e.newline(); e.w(' * ' + ' '.join(rng.sample(WORDS, 2)))
             n = rng.randint(0, 4)
             for i in range(n):
+                if rng.random() < 0.25:
+                    # a tag without text on its line (`@deprecated`, an empty `@return`): it carries no text, and
+                    # must not swallow the line that follows
+                    e.newline(); e.w(' * @' + rng.choice(['deprecated', 'hidden', 'return', 'since']) + rng.choice(['', ' ', '  ']))
+                    continue
                 k = rng.choice(kinds)
                 t = ' '.join(rng.sample(WORDS, rng.randint(1, 3)))
                 e.newline(); e.w(' * @' + k + ' ' + t)
@@ -654,7 +672,7 @@ class Gen:
 
 def gen_unit(seed, idx, size=1.0, features=None):
     rng = random.Random('%d/%d' % (seed, idx))
-    style = {'wild': rng.random() < 0.4, 'crlf': rng.random() < 0.2, 'tabs': rng.random() < 0.3}
+    style = {'wild': rng.random() < 0.4, 'crlf': rng.random() < 0.2, 'tabs': rng.random() < 0.3, 'comments': rng.random() < 0.3}
     g = Gen(rng, style, size, features)
     text, truth = g.unit()
     return text, truth, style
